@@ -528,6 +528,9 @@ func runCase(line string) string {
 	if strings.HasPrefix(line, "tr ") {
 		return runTransport(line)
 	}
+	if strings.HasPrefix(line, "hist ") {
+		return runHist(line)
+	}
 	out := runCaseOnce(line)
 	for i := 0; i < 5 && out == "run=harness-port-lost"; i++ {
 		out = runCaseOnce(line)
